@@ -4,6 +4,8 @@ This module provides request handler classes for processing Gemini requests
 and generating responses, including Titan upload handlers.
 """
 
+import os
+import secrets
 from abc import ABC, abstractmethod
 from pathlib import Path
 from typing import TYPE_CHECKING
@@ -380,7 +382,7 @@ class FileUploadHandler(UploadHandler):
 
         # 5. Validate path (path traversal protection)
         target = (self.upload_dir / request.path.lstrip("/")).resolve()
-        if not self._is_safe_path(target):
+        if not self._is_safe_path(target) or target == self.upload_dir:
             return GeminiResponse(
                 status=StatusCode.BAD_REQUEST.value,
                 meta="Invalid path",
@@ -389,7 +391,7 @@ class FileUploadHandler(UploadHandler):
         # 6. Save file
         try:
             target.parent.mkdir(parents=True, exist_ok=True)
-            target.write_bytes(request.content)
+            self._write_atomically(target, request.content)
 
             return GeminiResponse(
                 status=StatusCode.SUCCESS.value,
@@ -406,6 +408,30 @@ class FileUploadHandler(UploadHandler):
                 status=StatusCode.TEMPORARY_FAILURE.value,
                 meta=f"Upload failed: {str(e)}",
             )
+
+    def _write_atomically(self, target: Path, content: bytes) -> None:
+        """Store content under target without ever exposing a partial file.
+
+        The bytes go to a new temporary file next to the target, which then
+        replaces the target in a single step. A failure at any point leaves an
+        existing target untouched and no stray file behind.
+
+        Args:
+            target: The resolved path to store the content under.
+            content: The bytes to store.
+        """
+        tmp = target.parent / f".upload-{secrets.token_hex(8)}.part"
+        f = open(tmp, "xb")  # exclusive: never reuses or overwrites an existing file
+        try:
+            with f:
+                f.write(content)
+            os.replace(tmp, target)
+        except BaseException:
+            try:
+                os.unlink(tmp)
+            except OSError:
+                pass
+            raise
 
     async def _handle_delete(self, path: str) -> GeminiResponse:
         """Handle a zero-byte delete request.
